@@ -15,11 +15,17 @@ var imggenStyle = imggen.LayoutStyle{}
 
 // placeInfo is what the generator knows about the content of a place.
 type placeInfo struct {
-	p     Place
-	tags  []string
-	mans  []string // manifest digests
-	blobs []string // blob digests
+	p        Place
+	tags     []string
+	mans     []string // manifest digests
+	blobs    []string // blob digests
+	listTags []string // tags of indexes / manifest lists
+	artTags  []string // tags of artifact manifests (no image methods)
 }
+
+// Throttled is the set of bindings that take a slot of the parallelism
+// throttle shared by all scripts (defaults.parallel).
+var Throttled = map[string]bool{"image.config": true, "manifest:config": true, "image.copy": true, "image.exportTar": true, "image.importTar": true}
 
 type sgen struct {
 	t      *rapid.T
@@ -36,6 +42,10 @@ type sgen struct {
 	// timeout (forever without one). Termination is not what C19 states; the
 	// generator keeps every case below that limit.
 	blobGets map[string]int
+	// afterCfg is set once a statement whose image.config call is expected to
+	// raise after it took the throttle was generated: later statements of this and
+	// of later scripts are then biased towards throttled calls.
+	afterCfg *bool
 }
 
 // canBlobGet reserves one blob.get on the place's host (layouts are unlimited).
@@ -425,6 +435,77 @@ func (g *sgen) readBody() *body {
 	return b
 }
 
+// configOnListBody calls image.config / <manifest>:config with a manifest that
+// has no image methods (a manifest list, an artifact manifest): the binding
+// raises after it has taken its throttle slot.
+func (g *sgen) configOnListBody() *body {
+	b := &body{kind: "image.config/on-list"}
+	cs := &b.calls
+	pi := g.place("", "pl")
+	for try := 0; try < 3 && len(pi.listTags) == 0; try++ {
+		pi = g.place("", "pl2")
+	}
+	tag := g.pick(pi.listTags, "lt", g.pick(pi.tags, "anyt", "v1"))
+	ref := g.refExpr(pi.p.Base(), tag, "", false, "ref", cs)
+	switch x := g.draw(5, "how"); {
+	case x == 0:
+		b.add("local c = image.config(manifest.getList(%s))", ref)
+		b.call("manifest.getList", "image.config")
+	case x == 1:
+		b.add("local m = manifest.getList(%s)", ref)
+		b.add("local c = m:config()")
+		b.call("manifest.getList", "manifest:config")
+	case x == 2:
+		b.add("local c = image.config(image.manifestList(%s))", ref)
+		b.call("image.manifestList", "image.config")
+	case x == 3 && len(pi.artTags) > 0:
+		b.add("local c = image.config(%s)", g.refExpr(pi.p.Base(), g.pick(pi.artTags, "at", "v1"), "", false, "aref", cs))
+		b.call("image.config")
+	default:
+		b.add("local m = manifest.getList(%s)", ref)
+		b.add(`log("list " .. tostring(m.mediaType))`)
+		b.add("local c = image.config(m)")
+		b.call("manifest.getList", "image.config")
+	}
+	b.add(`log("config " .. tostring(c))`)
+	*g.afterCfg = true
+	return b
+}
+
+// followBody is a throttled call (used after a configOnListBody somewhere before).
+func (g *sgen) followBody() *body {
+	b := &body{}
+	cs := &b.calls
+	n := 2
+	if !g.ro {
+		n = 5
+	}
+	src, _ := g.srcRef("", "src", false, cs)
+	switch g.draw(n, "fk") {
+	case 0:
+		b.kind = "image.config"
+		b.add("local c = image.config(%s)", src)
+		b.add(`log("arch " .. tostring(c.architecture) .. "/" .. tostring(c.os))`)
+		b.call("image.config")
+	case 1:
+		b.kind = "image.exportTar"
+		b.add(`image.exportTar(%s, %s)`, src, q(fmt.Sprintf("%s/scratch/export-%d-%d.tar", RootToken, g.si, g.k)))
+		b.add(`log("exported tar")`)
+		b.call("image.exportTar")
+	case 2, 3:
+		b.kind, b.mut = "image.copy", "image.copy"
+		b.add("image.copy(%s, %s)", src, g.tgtRef("tgt", false, cs))
+		b.add(`log("copied")`)
+		b.call("image.copy")
+	default:
+		b.kind, b.mut = "image.importTar", "image.importTar"
+		b.add("image.importTar(%s, %s)", g.tgtRef("tgt", false, cs), q(RootToken+"/scratch/import.tar"))
+		b.add(`log("imported")`)
+		b.call("image.importTar")
+	}
+	return b
+}
+
 func (g *sgen) errorBody() *body {
 	b := &body{kind: "error", raise: true}
 	switch g.draw(6, "ek") {
@@ -648,9 +729,14 @@ func (g *sgen) stmt() Stmt {
 	var b *body
 	protected := g.chance(70, "pcall")
 	switch x := g.draw(100, "cat"); {
+	case *g.afterCfg && x >= 60:
+		b = g.followBody()
 	case x < 7:
 		b = g.errorBody()
 		protected = g.chance(40, "epcall")
+	case x < 15:
+		b = g.configOnListBody()
+		protected = g.chance(50, "cpcall")
 	case !g.ro && x < 64:
 		b = g.mutBody()
 	default:
@@ -772,6 +858,14 @@ func Gen(t *rapid.T) Case {
 		for _, n := range g.Nodes {
 			pi.mans = append(pi.mans, n.Digest)
 		}
+		for _, tg := range pi.tags {
+			switch g.Nodes[g.Tags[tg]].Kind {
+			case "index":
+				pi.listTags = append(pi.listTags, tg)
+			case "artifact":
+				pi.artTags = append(pi.artTags, tg)
+			}
+		}
 		for d := range g.Blobs {
 			pi.blobs = append(pi.blobs, d)
 		}
@@ -780,13 +874,14 @@ func Gen(t *rapid.T) Case {
 	}
 
 	blobGets := map[string]int{HostA: 2, HostB: 2}
+	afterCfg := false
 	for si := 0; si < nScripts; si++ {
 		s := Script{Name: fmt.Sprintf("s%d", si)}
 		if sfx := rapid.SampledFrom([]string{"", "", " nightly copy", "-cleanup", " Retag #2"}).Draw(t, "namesfx"); sfx != "" {
 			s.Name += sfx
 		}
 		s.Timeout = rapid.SampledFrom([]string{"", "", "300s", "10m"}).Draw(t, "timeout")
-		g := &sgen{t: t, c: &c, si: si, infos: infos, ro: c.ReadOnly, blobGets: blobGets}
+		g := &sgen{t: t, c: &c, si: si, infos: infos, ro: c.ReadOnly, blobGets: blobGets, afterCfg: &afterCfg}
 		for i, pi := range infos {
 			if pi.p.Owner < 0 || pi.p.Owner == si {
 				g.usable = append(g.usable, i)
@@ -799,5 +894,40 @@ func Gen(t *rapid.T) Case {
 		}
 		c.Scripts = append(c.Scripts, s)
 	}
+	// Two or more throttled calls: should one of them keep its slot, a later one
+	// would wait for it until its script's timeout - forever without one. Such
+	// cases always run with short timeouts so that the wait ends in a failure the
+	// oracle can judge instead of in the harness watchdog. (A deadline that fires
+	// for any other reason is not judged.)
+	short := make([]string, len(c.Scripts))
+	for i := range short {
+		short[i] = []string{"", "2s", "3s"}[uniform(t, 3, "shorttimeout")]
+	}
+	if ThrottledCalls(c) >= 2 {
+		c.DefTimeout = "3s"
+		for i := range c.Scripts {
+			c.Scripts[i].Timeout = short[i]
+		}
+	}
 	return c
+}
+
+// ThrottledCalls counts the statements of the case that take the parallelism
+// throttle (a statement with a loop counts twice).
+func ThrottledCalls(c Case) int {
+	n := 0
+	for _, s := range c.Scripts {
+		for _, st := range s.Stmts {
+			for _, cl := range st.Calls {
+				if Throttled[cl] {
+					n++
+					if strings.Contains(st.Lua, "for _, ") {
+						n++
+					}
+					break
+				}
+			}
+		}
+	}
+	return n
 }
